@@ -772,6 +772,71 @@ def scan_lexer_key() -> typing.Tuple[typing.List[str], typing.List[str]]:
     return key, reads
 
 
+def scan_template_toplevel() -> typing.List[dict]:
+    """Every packaged template that is the target of a context-less {% import %}/{% from %} (Jinja evaluates it ONCE per environment
+    and keeps the module): each top-level {% set %} (outside macro / call / set-block bodies) with whether its right-hand side
+    creates a mutable object -- namespace(...), a list/dict display, dict(...)/list(...)/set(...) -- and every top-level {% do %}."""
+    out: typing.List[dict] = []
+    troot = os.path.join(gen.REPO, 'src', 'nunavut', 'lang')
+    imp = re.compile(r'{%-?\s*(?:import|from)\s+[\'"]([^\'"]+)[\'"]([^%]*)%}')
+    for d, _, fns in sorted(os.walk(troot)):
+        j2 = sorted(n for n in fns if n.endswith('.j2'))
+        texts = {n: open(os.path.join(d, n), encoding='utf-8').read() for n in j2}
+        targets = set()
+        for n, t in texts.items():
+            for name, rest in imp.findall(t):
+                if 'with context' not in rest:
+                    targets.add(name)
+        for n in sorted(targets & set(j2)):
+            t = re.sub(r'{#.*?#}', '', texts[n], flags=re.S)
+            for blk in ('macro', 'call', 'filter'):
+                t = re.sub(r'{%%-?\s*%s\b.*?{%%-?\s*end%s\s*-?%%}' % (blk, blk), '', t, flags=re.S)
+            t = re.sub(r'{%-?\s*set\s+[\w.]+\s*-?%}.*?{%-?\s*endset\s*-?%}', '', t, flags=re.S)      # block assignment: a string
+            rel = os.path.relpath(os.path.join(d, n), os.path.join(gen.REPO, 'src', 'nunavut')).replace(os.sep, '/')
+            for m in re.finditer(r'{%-?\s*(set|do)\s+(.*?)-?%}', t, flags=re.S):
+                kind, body = m.group(1), ' '.join(m.group(2).split())
+                rhs = body.split('=', 1)[1] if (kind == 'set' and '=' in body) else body
+                mutable = kind == 'do' or bool(re.search(r'namespace\s*\(|\[|\{|\b(dict|list|set|cycler|joiner)\s*\(', rhs))
+                out.append({'file': rel, 'stmt': (kind + ' ' + body)[:80], 'mutable': mutable})
+            if not any(x['file'] == rel for x in out):
+                out.append({'file': rel, 'stmt': '(no top-level set)', 'mutable': False})
+    return out
+
+
+def classified_function_digests(stores, wreads) -> typing.List[typing.Tuple[str, str, str]]:
+    """sha256 (first 16 hex digits) of the shape_pin-normalised body of every function that has a render-phase store or a wide
+    read: the hand classifications of GenStateSites.v were made for THESE bodies"""
+    import hashlib
+    from . import shape_pin
+    fns = sorted({(x['file'], x['fn']) for x in stores if x['phase'] == 'SRender'}
+                 | {(x['file'], x['where']) for x in wreads if x['kind'] == 'WPython'})
+    res = []
+    for f, q in fns:
+        try:
+            dump = shape_pin.normalized_dump('src/nunavut/' + f, q)
+            res.append((f, q, hashlib.sha256(dump.encode()).hexdigest()[:16]))
+        except Exception as ex:  # noqa
+            # a name defined more than once in its scope (property getter + setter): digest of all its definitions, in order
+            try:
+                tree = gen.parse_repo('src/nunavut/' + f)
+                node: ast.AST = tree
+                parts = q.split('.')
+                for part in parts[:-1]:
+                    node = [c for c in ast.iter_child_nodes(node) if isinstance(c, (ast.ClassDef, ast.FunctionDef)) and c.name == part][0]
+                defs = [c for c in ast.iter_child_nodes(node) if isinstance(c, (ast.FunctionDef, ast.AsyncFunctionDef)) and c.name == parts[-1]]
+                if len(defs) < 2:
+                    raise
+                text = ''
+                for dfn in defs:
+                    body = [st for st in dfn.body if not (isinstance(st, ast.Expr) and isinstance(st.value, ast.Constant)
+                                                          and isinstance(st.value.value, str))]
+                    text += '|' + ','.join(_deco_name(x) for x in dfn.decorator_list) + ':' + ''.join(ast.dump(st) for st in body)
+                res.append((f, q, hashlib.sha256(text.encode()).hexdigest()[:16]))
+            except Exception:  # noqa  (cannot be pinned: the digest names the reason, which is not in the reviewed list)
+                res.append((f, q, 'unpinnable: %s' % type(ex).__name__))
+    return res
+
+
 def gen_sites() -> typing.Tuple[bool, str]:
     out_path = os.path.join(gen.GEN_DIR, 'Gen_Sites.v')
     head = (gen.HEADER % 'src/nunavut/**/*.py (memoisation and mutable process state; bundled jinja2/markupsafe excluded), lang/*/__init__.py (unique-name filters)'
@@ -828,11 +893,23 @@ def gen_sites() -> typing.Tuple[bool, str]:
         return False, 'wide-read scanner failed closed: %s' % ex
     wrows = ['  {| w_file := %s;\n     w_where := %s;\n     w_name := %s; w_kind := %s |}'
              % (_coq_str(x['file']), _coq_str(x['where']), _coq_str(x['name']), x['kind']) for x in wreads]
+    try:
+        tops = scan_template_toplevel()
+    except (Unsupported, SyntaxError, OSError) as ex:
+        gen.write_if_changed(out_path, head + '(* template scanner failed closed: %s *)\n' % str(ex).replace('*)', '* )'))
+        return False, 'template top-level scanner failed closed: %s' % ex
+    digs = classified_function_digests(stores, wreads)
+    trows = ['  (%s, %s, %s)' % (_coq_str(x['file']), _coq_str(x['stmt']), 'true' if x['mutable'] else 'false') for x in tops]
+    drows = ['  (%s, %s, %s)' % (_coq_str(a), _coq_str(b), _coq_str(c)) for a, b, c in digs]
     srows = ['  {| st_file := %s;\n     st_fn := %s;\n     st_target := %s; st_root := %s; st_phase := %s |}'
              % (_coq_str(x['file']), _coq_str(x['fn']), _coq_str(x['target']), x['root'], x['phase']) for x in stores]
     text = ('(* bundled jinja2/lexer.py: the process-wide _lexer_cache *)\n'
             'Definition g_lexer_key : list str :=\n [' + ';\n  '.join(_coq_str(x) for x in lkey) + '].\n'
             'Definition g_lexer_reads : list str :=\n [' + ';\n  '.join(_coq_str(x) for x in lreads) + '].\n\n'
+            '(* top level of every packaged template that is imported without context: (file, statement, creates a mutable object) *)\n'
+            'Definition g_tpl_toplevel : list (str * str * bool) :=\n [\n' + ';\n'.join(trows) + '\n ].\n\n'
+            '(* shape digests of the functions whose stores / wide reads are classified by hand *)\n'
+            'Definition g_fn_digests : list (str * str * str) :=\n [\n' + ';\n'.join(drows) + '\n ].\n\n'
             'Definition g_wide_reads : list wread :=\n [\n' + ';\n'.join(wrows) + '\n ].\n\n'
             'Definition g_modobjs : list modobj :=\n [\n' + ';\n'.join(mrows) + '\n ].\n\n'
             'Definition g_env_kwargs : list envkw :=\n [\n' + ';\n'.join(erows) + '\n ].\n\n'
